@@ -203,7 +203,8 @@ func (e *c19Env) tx(who int, msg sdk.Msg, tag string) bool {
 
 func (e *c19Env) setPrice(a *c19Asset, twa uint64, active bool) {
 	a.twa = twa
-	e.c.App.MarketKeeper.SetTwa(e.c.Ctx(), markettypes.TimeWeightedAverage{AssetID: a.id, ScriptID: 12, Twa: twa, CurrentIndex: 0, IsPriceActive: active && twa > 0, PriceValue: []uint64{twa}})
+	// through the chain driver: with a tape attached (C16, C20) the price write is recorded as an environment action
+	e.c.SetTwa(markettypes.TimeWeightedAverage{AssetID: a.id, ScriptID: 12, Twa: twa, CurrentIndex: 0, IsPriceActive: active && twa > 0, PriceValue: []uint64{twa}})
 }
 
 func (e *c19Env) asset(denom string) *c19Asset {
@@ -677,7 +678,7 @@ func (e *c19Env) action() {
 		if gp.SwapFeeDistrDenom == "ucmdx" {
 			nd = e.assets[r.Intn(len(e.assets))].denom
 		}
-		err = c.App.LiquidityKeeper.UpdateGenericParams(c.Ctx(), e.appID, []string{"SwapFeeDistrDenom"}, []string{nd})
+		err = c16Env(c, "liq-generic-params", fmt.Sprint(e.appID), "SwapFeeDistrDenom", nd)
 		e.logf("params SwapFeeDistrDenom %s -> %s err=%v", gp.SwapFeeDistrDenom, nd, err)
 		if err == nil {
 			e.rec.Count("swap_fee_denom_switches", 1)
@@ -1077,13 +1078,9 @@ func (e *c19Env) addBounds(b []*big.Rat, sh c19Share, a *big.Int, denom string, 
 	}
 }
 
-func c19Scenario(t *testing.T, rec *ev.Rec, sc int) {
-	rnd := rng("C19-scenario", sc)
-	nF := []int{1, 2, 3, 5, 8, 12}[(sc+ev.ShardNo())%6]
-	if rnd.Intn(3) == 0 {
-		nF = 1 + rnd.Intn(12)
-	}
-	priceReg := []int{0, 4, 1, 3, 4, 2}[(sc/2+ev.ShardNo())%6]
+// c19NewEnv builds the chain of one gauge scenario (deterministic in rnd, sc, nF, priceReg): assets, app, pairs and
+// pools created with real transactions, pool coins handed to the farmers, optionally the locker programme.
+func c19NewEnv(t *testing.T, rec *ev.Rec, rnd *rand.Rand, sc, nF, priceReg int) *c19Env {
 	big30 := c19Pow10(30)
 	bal := sdk.NewCoins(sdk.NewCoin("ucmdx", c19Pow10(18)), sdk.NewCoin("lrwd", big30))
 	for _, d := range []string{"uaaa", "ubbb", "uccc", "uddd"} {
@@ -1093,7 +1090,6 @@ func c19Scenario(t *testing.T, rec *ev.Rec, sc int) {
 		bal = bal.Add(sdk.NewCoin(d, big30))
 	}
 	c := sim.New(sim.Options{NAccts: 14, Balances: bal})
-	defer c.Close()
 	e := &c19Env{t: t, c: c, rec: rec, rnd: rnd, nF: nF, priceReg: priceReg, cumPaid: map[string]*big.Int{}}
 	e.cfg = fmt.Sprintf("VERIF_SEED=%d shard=%d/%d scenario=%d farmers=%d priceRegime=%d", ev.Seed(), ev.ShardNo(), ev.NShards(), sc, nF, priceReg)
 	c.PanicHook = func(phase string, h int64, r interface{}) {
@@ -1103,6 +1099,19 @@ func c19Scenario(t *testing.T, rec *ev.Rec, sc int) {
 		rec.Note(fmt.Sprintf("%s: %s at height %d panicked: %v", e.cfg, phase, h, r))
 	}
 	e.setup(sc)
+	return e
+}
+
+func c19Scenario(t *testing.T, rec *ev.Rec, sc int) {
+	rnd := rng("C19-scenario", sc)
+	nF := []int{1, 2, 3, 5, 8, 12}[(sc+ev.ShardNo())%6]
+	if rnd.Intn(3) == 0 {
+		nF = 1 + rnd.Intn(12)
+	}
+	priceReg := []int{0, 4, 1, 3, 4, 2}[(sc/2+ev.ShardNo())%6]
+	e := c19NewEnv(t, rec, rnd, sc, nF, priceReg)
+	c := e.c
+	defer c.Close()
 	rec.Count("scenarios", 1)
 	rec.Count(fmt.Sprintf("scenarios_farmers_%d", nF), 1)
 	// first gauges early, so that farmers queue against them
@@ -1124,7 +1133,7 @@ func c19Scenario(t *testing.T, rec *ev.Rec, sc int) {
 
 func TestC19(t *testing.T) {
 	rec := ev.New("C19", "exploration", "split: all (deposit, epochs) with epochs<=64 and deposit in [epochs, epochs+200] plus seeded random pairs up to 2^64-1; "+
-		"in situ: seeded scenarios on a real chain instance (1-12 farmers, 1-4 pools, plain / master gauges with explicit or implicit child pools, swap-fee gauges, a locker reward programme), "+
+		"in situ: seeded scenarios on a real chain instance (1-12 farmers, 1-4 pools, plain / master gauges with explicit or implicit child pools, swap-fee gauges, a locker reward programme; part 3: all four kinds of external reward programme -- locker, vault, lend, stable-mint -- next to gauges with shared reward denominations, custody clause only), "+
 		"real txs (create pair/pool/gauge, farm, unfarm, deposit, withdraw, sends), oracle price regimes normal/high/low/mixed, block gaps from seconds to weeks; every block is judged from "+
 		"balance deltas and gauge records. distinct = (gauge kind, eligible farmers, farmers, epoch position, allocation magnitude, price regime, remainder class, outcome) of observed epochs and (epochs, deposit) of split cases")
 	defer finish(t, rec)
@@ -1132,6 +1141,11 @@ func TestC19(t *testing.T) {
 	n := ev.Pick(14, 250)
 	for sc := 0; sc < n; sc++ {
 		c19Scenario(t, rec, sc)
+	}
+	// part 3: external reward programmes of all four kinds next to gauges (custody clause)
+	np := ev.Pick(6, 40)
+	for sc := 0; sc < np; sc++ {
+		c19ProgScenario(t, rec, ev.ShardNo()*np+sc)
 	}
 	rec.Floor("split_cases", 60000)
 	rec.Floor("split_cases_with_remainder", 40000)
@@ -1145,6 +1159,12 @@ func TestC19(t *testing.T) {
 	rec.Floor("custody_denom_checks", 10000)
 	rec.Floor("swapfee_gauge_epochs_with_payout", 100)
 	rec.Floor("locker_programme_payout_blocks", 10)
+	for _, k := range []string{"locker", "vault", "lend", "stable"} {
+		rec.Floor("prog_payout_epochs_"+k, 20)
+		rec.Floor("prog_custody_denom_checks_with_"+k+"_claim", 200)
+	}
+	rec.Floor("prog_custody_denom_checks_shared_with_gauge", 200)
+	rec.Floor("prog_scenarios_without_lend_programme", 4)
 	rec.Assume("the value of farmed pool coins is what the chain's own redemption function (amm.Withdraw, fee 0) and the stored oracle price give; shares are computed from it in exact rationals")
 	rec.Assume("the allocation of epoch k of a gauge is entry k of SplitTotalAmountPerEpoch(deposit, triggers); part 1 checks that these entries sum to the deposit")
 	rec.Assume("reward denoms of the generated gauges are used for nothing else, so every unit leaving the rewards account in such a denom is a payout")
